@@ -169,6 +169,32 @@ def c05_programs(rng, tier) -> List[Item]:
     cfg2 = Cfg(raising=True, catch_unsafe=True)
     items += gen_items(rng, cfg2, sizes(tier, 100, 1500), hist_all_ops, ops=("evaluate",))
     items += equal_hash_items(rng, sizes(tier, 20, 150))
+    items += lifted_falsy_items(rng, sizes(tier, 15, 100))
+    return items
+
+
+def lifted_falsy_items(rng, n) -> List[Item]:
+    """`FunctionApplication.lift(f, **overrides)` where the overriding keyword values are plain constants, every falsy
+    one included (0, False, None, "", [], {}): the function is applied to exactly those values"""
+    items = []
+    FALSY = [0, False, None, "", [], {}]
+    for _ in range(n):
+        P = Prog()
+        names = rng.sample(["u", "v", "w", "x"], rng.randint(1, 3))
+        kw = []
+        for nm in names:
+            r = rng.random()
+            if r < 0.6:
+                kw.append((nm, P.value(copy.deepcopy(rng.choice(FALSY)))))
+            elif r < 0.8:
+                kw.append((nm, P.value(rng.choice([1, "s", [0]]))))
+            else:
+                kw.append((nm, P.option("A", dflt=P.value(copy.deepcopy(rng.choice(FALSY))))))
+        fa = P._node("funapp", f=P.fnvalue(P.free(f"lf{rng.randint(0, 10**6)}")), args=[], kw=[[a, b] for a, b in kw], lift=1)
+        root = fa if rng.random() < 0.5 else P.switch(P.option("K", bare=True), [("x", fa)], fa)
+        for o in [{}, {"A": 5}, {"A": 0, "K": "x"}]:
+            P.evaluate(root, o)
+        items.append((P.to_json(), {}))
     return items
 
 
